@@ -115,6 +115,7 @@ def run(tables_path, workdir):
         if rank == 0:
             shutil.rmtree(d, ignore_errors=True)
     if rank == 0:
+        sys.stdout.write("\n@@C06JSON@@")
         json.dump(out, sys.stdout)
 
 
